@@ -5,8 +5,8 @@ JSON node:  ['E', ns|None, name, [[ns|None, name, value], ...], [children...]] |
 """
 from core import hexs, unhexs
 
-NSS = [None, 'urn:a', 'urn:b', 'urn:ietf:params:xml:ns:netconf:base:1.0', 'http://example.com/ns/1']
-NAMES = ['a', 'b', 'c', 'data', 'config', 'interface', 'name', 'x-y', 'A1', 'été']
+NSS = [None, 'urn:a', 'urn:b', 'urn:ietf:params:xml:ns:netconf:base:1.0', 'http://example.com/ns/1', 'urn:a:b', 'http://example.com/ns/1:ext']
+NAMES = ['a', 'b', 'c', 'data', 'config', 'interface', 'name', 'x-y', 'A1', 'été', 'rpc', 'rpc-reply', 'configuration']
 TEXTS = ['t', 'hello world', 'é€😀', 'a<b>&c', 'line1\nline2', 'cr\rlf', '\ttab', '  pad  ', '"q" \'s\'', ']]>', '0']
 BLANKS = [' ', '\n  ', '\n', '\t']
 
